@@ -33,7 +33,7 @@ from . import matrix as M
 PROPERTY = "C01"
 LEVEL = "exploration"
 RULE = (
-    "for a serializer-matrix entry (116 configurations in 13 families): 1-8 valid packets (domains: " + M.domains() + "), bytes produced by the real "
+    "for a serializer-matrix entry (122 configurations in 13 families): 1-8 valid packets (domains: " + M.domains() + "), bytes produced by the real "
     "StreamDataProducer.generate; chunking families {whole, byte-by-byte, 1 cut, 2 cuts, fixed size, k random cuts, structural cuts "
     "(packet boundary +-5, inside separators, headers, inside multi-byte characters, after escape bytes/quotes, inside struct fields, "
     "inside compressed blocks and at their end markers)}; both receive paths (copy; fill with size hints {1,2,3,5,8,16,64,1024,16384} and "
@@ -393,9 +393,9 @@ def tight_limit(entry: M.Entry, bounds: list[int]) -> int:
 
 def _short(v: Any, n: int = 160) -> str:
     try:
-        r = repr(v)
-    except RecursionError:  # pragma: no cover
-        r = "<deep>"
+        r = repr(bytes(v)) if isinstance(v, memoryview) else repr(v)
+    except Exception:  # noqa: BLE001  (deep structure, released view)
+        r = "<unprintable>"
     return r if len(r) <= n else r[: n - 12] + f"...(+{len(r) - n + 12})"
 
 
@@ -468,16 +468,25 @@ def run_roundtrip(world: World, family: str, path: Path) -> None:
             raise Violation("no-error", f"exception escaped after {i} packets: {o}\n{ctx()}", key=f"{site}/no-error/crash/{o[2] or o[1]}")
         if o[0] == "err":
             raise Violation("no-error", f"parse error {o[1]} reported as outcome #{i} of a valid stream\n{ctx()}", key=f"{site}/no-error/{o[1]}")
-    # clause 2: exactly the packets sent, in order, exactly once
+    # clause 2: exactly the packets sent, in order, exactly once.  The comparison is made HERE, after the whole stream was
+    # received, on the very objects the receiving side returned (kept in `out`), value- and type-strict: a packet that aliases
+    # the reused receive buffer (a memoryview where bytes were sent, or content overwritten by a later read) fails it.
+    def same(g: Any, e: Any) -> bool:
+        try:
+            return bool(entry.eq(g, e))
+        except Exception:  # noqa: BLE001  e.g. a released memoryview
+            return False
+
     got = [o[1] for o in out]
-    if len(got) != len(expected) or not all(entry.eq(g, e) for g, e in zip(got, expected)):
-        idx = next((i for i, (g, e) in enumerate(zip(got, expected)) if not entry.eq(g, e)), min(len(got), len(expected)))
+    if len(got) != len(expected) or not all(same(g, e) for g, e in zip(got, expected)):
+        idx = next((i for i, (g, e) in enumerate(zip(got, expected)) if not same(g, e)), min(len(got), len(expected)))
         what = "extra" if len(got) > len(expected) else "missing" if len(got) < len(expected) and idx == len(got) else "different"
         if n_before_finish < len(out) and idx >= n_before_finish:
             what = "late"  # only came out of the extra next(None)
         raise Violation(
             "packets-equal",
-            f"returned {len(got)} packets, sent {len(expected)}; first difference at #{idx}: got {_short(got[idx]) if idx < len(got) else '<nothing>'} "
+            f"returned {len(got)} packets, sent {len(expected)}; first difference (compared after the whole stream was received) at #{idx}: "
+            f"got {(type(got[idx]).__name__ + ' ' + _short(got[idx])) if idx < len(got) else '<nothing>'} "
             f"expected {_short(expected[idx]) if idx < len(expected) else '<nothing>'}\n{ctx()}",
             key=f"{site}/packets-equal/{what}",
         )
